@@ -57,8 +57,15 @@ def apply_junk(data, junk):
     raise ValueError(k)
 
 
-def gen_junk(rng, data, offsets=None, kinds=None):
-    k = rng.choice(kinds or ["torn", "torn", "flip", "flip", "lost", "garbage", "foreign"])
+def gen_junk(rng, data, offsets=None, kinds=None, fields=None):
+    k = rng.choice(kinds or ["torn", "torn", "flip", "flip", "flip", "lost", "garbage", "foreign"])
+    if k == "flip" and fields and rng.random() < 0.6:
+        # bit rot inside a length / count / flag / id field
+        off, width, name = rng.choice(fields)
+        off += rng.randrange(width)
+        cur = data[off]
+        val = rng.choice([0, 1, 2, 4, 8, 23, max(0, cur - 1), (cur + 1) & 0xFF, cur ^ 0x80, cur ^ 0x01, 0xFF, rng.randrange(256)])
+        return {"kind": "flip", "off": off, "val": val, "field": name}
     if k == "torn":
         # bias: inside the two headers / on a section boundary / anywhere
         c = rng.random()
